@@ -42,6 +42,9 @@ package oc
 //@   claims at-call
 //@   at-call v.IsSet("neighbor.timers.config.keepalive-interval") requires called(validateHoldTime)
 //@   at-call validateHoldTime( requires arg0 == n.Timers.Config.HoldTime
+// ... and the restart time a neighbour ends up with - configured, or defaulted from the hold time - is one the 12-bit
+// field of the Graceful Restart capability can carry; the OPEN can then always be built
+//@   at-call v.IsSet("neighbor.graceful-restart.config.deferral-time") requires n.GracefulRestart.Config.RestartTime <= 4095
 //@ func validateHoldTime
 //@   claims post
 //@   ensures result == nil <==> (t == 0.0 || (t >= 3.0 && t <= 65535.0))
